@@ -46,21 +46,50 @@ def _closes(ifnode: ast.If) -> bool:
     return False
 
 
-def _bool_def(name: str, args: str, test: ast.AST, env: Dict[str, str], doc: str) -> str:
-    return f'/-- {doc} -/\ndef {name} ({args} : Int) : Bool :=\n  decide {T.expr_to_lean(test, env)}\n\n'
+def one_var_env(test: ast.AST, consts: Dict[str, str], var: str) -> Dict[str, str]:
+    """Environment for a guard with exactly one varying quantity: every maximal sub-expression that is not a
+    literal and does not mention a limit constant (`len(x)`, `self._attr`, a local name — whatever it is called)
+    becomes `var`.  Local renames therefore do not disturb the translation."""
+    env = dict(consts)
+    free: List[str] = []
+
+    def has_const(n: ast.AST) -> bool:
+        return any(ast.unparse(m) in consts for m in ast.walk(n) if isinstance(m, (ast.Name, ast.Attribute)))
+
+    def visit(n: ast.AST) -> None:
+        if isinstance(n, ast.Constant) or ast.unparse(n) in consts:
+            return
+        if isinstance(n, (ast.Compare, ast.BoolOp)) or (isinstance(n, (ast.BinOp, ast.UnaryOp)) and has_const(n)):
+            for c in ast.iter_child_nodes(n):
+                if isinstance(c, ast.expr):
+                    visit(c)
+            return
+        src = ast.unparse(n)
+        if src not in free:
+            free.append(src)
+    visit(test)
+    if len(free) != 1:
+        raise T.Untranslatable(f'guard `{ast.unparse(test)}`: expected one varying quantity, found {free}')
+    env[free[0]] = var
+    return env
+
+
+def _bool_def(name: str, var: str, test: ast.AST, consts: Dict[str, str], doc: str) -> str:
+    env = one_var_env(test, consts, var)
+    return f'/-- {doc} -/\ndef {name} ({var} : Int) : Bool :=\n  decide {T.expr_to_lean(test, env)}\n\n'
 
 
 def pktsize_guard(func: ast.AST) -> Tuple[Optional[ast.If], bool]:
     """(the `if <send_pktsize test>: raise` of a channel-open handler or None, guard is after the dropbear adjustment)"""
-    guards = [n for n in ast.walk(func) if isinstance(n, ast.If) and _mentions(n.test, 'send_pktsize')
-              and any(isinstance(m, ast.Raise) for b in n.body for m in ast.walk(b))]
     adjust = [n for n in ast.walk(func) if isinstance(n, ast.AugAssign) and isinstance(n.target, ast.Name)
-              and n.target.id == 'send_pktsize']
+              and isinstance(n.op, ast.Sub) and isinstance(n.value, ast.Constant) and n.value.value == 1]
+    if len(adjust) != 1:
+        raise T.Untranslatable(f'{func.name}: dropbear adjustment `<max packet size> -= 1` not found')   # type: ignore
+    var = adjust[0].target.id          # type: ignore
+    guards = [n for n in ast.walk(func) if isinstance(n, ast.If) and _mentions(n.test, var)
+              and any(isinstance(m, ast.Raise) for b in n.body for m in ast.walk(b))]
     if len(guards) > 1:
-        raise T.Untranslatable(f'{func.name}: more than one guard on send_pktsize')      # type: ignore
-    if len(adjust) != 1 or not isinstance(adjust[0].op, ast.Sub) or \
-            not (isinstance(adjust[0].value, ast.Constant) and adjust[0].value.value == 1):
-        raise T.Untranslatable(f'{func.name}: dropbear adjustment `send_pktsize -= 1` not found')   # type: ignore
+        raise T.Untranslatable(f'{func.name}: more than one guard on {var}')      # type: ignore
     if not guards:
         return None, False
     return guards[0], guards[0].lineno > adjust[0].lineno
@@ -115,20 +144,12 @@ def generate() -> Dict[str, Any]:
         out += f'/-- `{name}` -/\ndef {lean} : Nat := {limits[name]}\n'
     out += f'\n/-- third argument of `self._inpbuf.find(b\'\\n\', 0, …)` in `_recv_version` -/\n' \
            f'def findLimit : Int := {find_limit}\n\n'
-    e1 = dict(env_limits)
-    e1['len(self._inpbuf)'] = 'buflen'
-    out += _bool_def('bannerLineTooLong', 'buflen', g_line.test, e1,
+    out += _bool_def('bannerLineTooLong', 'buflen', g_line.test, env_limits,
                      'no newline among the first `findLimit` bytes: `' + ast.unparse(g_line.test) + '` closes')
-    e2 = dict(env_limits)
-    e2['len(version)'] = 'n'
-    out += _bool_def('versionTooLong', 'n', g_ver.test, e2, '`' + ast.unparse(g_ver.test) + '` closes')
-    e3 = dict(env_limits)
-    e3['self._banner_lines'] = 'n'
-    out += _bool_def('tooManyBannerLines', 'n', g_cnt.test, e3,
+    out += _bool_def('versionTooLong', 'n', g_ver.test, env_limits, '`' + ast.unparse(g_ver.test) + '` closes')
+    out += _bool_def('tooManyBannerLines', 'n', g_cnt.test, env_limits,
                      'after `self._banner_lines += 1`: `' + ast.unparse(g_cnt.test) + '` closes')
-    e4 = dict(env_limits)
-    e4['len(username_bytes)'] = 'n'
-    out += _bool_def('usernameTooLong', 'n', g_user.test, e4, '`' + ast.unparse(g_user.test) + '` raises IllegalUserName')
+    out += _bool_def('usernameTooLong', 'n', g_user.test, env_limits, '`' + ast.unparse(g_user.test) + '` raises IllegalUserName')
 
     # zero maximum packet size guards
     info: Dict[str, Any] = {}
@@ -139,7 +160,7 @@ def generate() -> Dict[str, Any]:
             body = 'fun _ => false'
             doc = f'`{fn}` has no active guard on `send_pktsize` (the check is commented out)'
         else:
-            body = 'fun pktsize => decide ' + T.expr_to_lean(guard.test, {'send_pktsize': 'pktsize'})
+            body = 'fun pktsize => decide ' + T.expr_to_lean(guard.test, one_var_env(guard.test, {}, 'pktsize'))
             doc = f'`{fn}`: `{ast.unparse(guard.test)}` raises ProtocolError'
         info[lean + '_guard'] = ast.unparse(guard.test) if guard is not None else None
         out += f'/-- {doc} -/\ndef {lean}RejectsPktsize : Int → Bool :=\n  {body}\n'
@@ -151,7 +172,12 @@ def generate() -> Dict[str, Any]:
     loops = [n for n in ast.walk(fl) if isinstance(n, ast.While)]
     if len(loops) != 1 or ast.unparse(loops[0].test) != 'self._send_buf and self._send_window':
         raise T.Untranslatable('_flush_send_buf: loop `while self._send_buf and self._send_window` not found')
-    asg = T.find_assign(fl, 'pktsize', 0)
+    mins = [n for n in ast.walk(loops[0]) if isinstance(n, ast.Assign) and isinstance(n.value, ast.Call)
+            and isinstance(n.value.func, ast.Name) and n.value.func.id == 'min'
+            and 'self._send_window' in ast.unparse(n.value) and 'self._send_pktsize' in ast.unparse(n.value)]
+    if len(mins) != 1:
+        raise T.Untranslatable('_flush_send_buf: `<size> = min(self._send_window, self._send_pktsize)` not found')
+    asg = mins[0]
     out += '/-- `pktsize = ' + ast.unparse(asg.value) + '` in `_flush_send_buf` -/\n'
     out += 'def flushPktsize (window maxpkt : Int) : Int :=\n  ' + \
         T.expr_to_lean(asg.value, {'self._send_window': 'window', 'self._send_pktsize': 'maxpkt'}) + '\n\n'
@@ -162,7 +188,7 @@ def generate() -> Dict[str, Any]:
         raise T.Untranslatable('_process_data: window check not found')
     out += '/-- `' + ast.unparse(wins[0].test) + '` raises ProtocolError("Window exceeded") in `_process_data` -/\n'
     out += 'def windowExceeded (datalen window : Int) : Bool :=\n  decide ' + \
-        T.expr_to_lean(wins[0].test, {'datalen': 'datalen', 'self._recv_window': 'window'}) + '\n\n'
+        T.expr_to_lean(wins[0].test, one_var_env(wins[0].test, {'self._recv_window': 'window'}, 'datalen')) + '\n\n'
 
     # receive block sizes: SSHConnection starts with 8 and takes max(8, cipher block size) afterwards
     init = T.find_def(tree, 'SSHConnection.__init__')
